@@ -392,7 +392,8 @@ def fs_cases(rng, n):
         v = np.asarray(v, float) * float(rng.choice([1.0, 37.5, 1e-3])) + rng.normal(size=3)
         info = None
         if k % 3:
-            info = {"head": np.array([20] if k % 3 == 1 else [2, 0, 20], dtype=np.int32), "valid": "1  # volume info valid", "filename": "../mri/filled-pretess%d.mgz" % k,
+            info = {"head": np.array([20] if k % 3 == 1 else [2, 0, 20], dtype=np.int32),
+                    "valid": ["1  # volume info valid", "0  # volume info invalid", "1  # volume info valid", "0"][k % 4], "filename": "../mri/filled-pretess%d.mgz" % k,
                     "volume": np.array([256, 256, 128 + k]), "voxelsize": rng.uniform(0.5, 1.5, 3), "xras": np.array([-1.0, 0, 0]), "yras": np.array([0, 0, -1.0]),
                     "zras": np.array([0, 1.0, 0]), "cras": rng.normal(size=3) * 10}
         out.append(dict(v=v, t=t, info=info, stamp=["created by someone on Tue Jan  1 00:00:00 2030", "", "x"][k % 3], name=["octa", "grid", "ico1", "tetra"][k % 4]))
